@@ -33,7 +33,8 @@ type Gen struct {
 	P       *Profile
 	It      *Interp
 	qSeq    int
-	N       int // planned number of ops
+	hot     uint16 // components preferred by this case, so that entities share archetypes
+	N       int    // planned number of ops
 	resetAt int
 	burst   int
 }
@@ -147,6 +148,8 @@ func (g *Gen) Next(t *rapid.T) *Op {
 	add("read", true)
 	add("dumpLoad", !locked)
 	add("gc", true)
+	add("dump", true)
+	add("loadSaved", !locked && g.It.saved != nil)
 	add("probe", true)
 	if g.P.ObsPrefix > 0 && g.It.Step < g.P.ObsPrefix && len(m.Obs) < 8 {
 		op := g.genObs(t)
@@ -235,6 +238,10 @@ func (g *Gen) Next(t *rapid.T) *Op {
 		op = &Op{K: "res", E: rapid.IntRange(0, 3).Draw(t, "res"), Mode: rapid.IntRange(0, 1).Draw(t, "resMode")}
 	case "probe":
 		op = g.genProbe(t)
+	case "dump":
+		op = &Op{K: "dump"}
+	case "loadSaved":
+		op = &Op{K: "loadSaved"}
 	case "gc":
 		op = &Op{K: "gc", Mode: rapid.IntRange(0, 1).Draw(t, "gcMode")}
 	case "dumpLoad":
@@ -388,7 +395,7 @@ func (g *Gen) genNew(t *rapid.T) *Op {
 				}
 			}
 		} else {
-			op.Comps = g.biasRel(t, subset(t, 0xffff, 0, 5, "comps"), 0)
+			op.Comps = g.biasRel(t, g.hotSubset(t, 0xffff, 0, 5, "comps"), 0)
 			op.Rels = g.relsFor(t, op.Comps)
 		}
 		for i := range op.Rels {
@@ -405,7 +412,7 @@ func (g *Gen) genNew(t *rapid.T) *Op {
 		return op
 	default:
 		op.P = PMap
-		op.M = pickByArity(t, seq(len(MapInsts)), mapArity, "mapper")
+		op.M = pickByArity(t, g.preferHot(t, seq(len(MapInsts)), mapMask, "mapper"), mapArity, "mapper")
 		list := MapInsts[op.M].Comps
 		op.Comps = list
 		op.Rels = g.relsFor(t, list)
@@ -430,7 +437,7 @@ func (g *Gen) genNewBatch(t *rapid.T) *Op {
 	}
 	op.P = PMap
 	// prefer low arities so that many entities share archetypes
-	l := seq(len(MapInsts))
+	l := g.preferHot(t, seq(len(MapInsts)), mapMask, "mapper")
 	op.M = pickByArity(t, l, func(i int) int { return min(mapArity(i), 5) }, "mapper")
 	list := MapInsts[op.M].Comps
 	op.Comps = list
@@ -529,7 +536,7 @@ func (g *Gen) genAdd(t *rapid.T, s int) *Op {
 			op.P = PUnsafe
 			break
 		}
-		op.M = pickByArity(t, l, mapArity, "mapper")
+		op.M = pickByArity(t, g.preferHot(t, l, mapMask, "mapper"), mapArity, "mapper")
 		op.Comps = MapInsts[op.M].Comps
 	default:
 		op.P = PEx
@@ -543,7 +550,7 @@ func (g *Gen) genAdd(t *rapid.T, s int) *Op {
 		op.Rem = subset(t, 0xffff&^ExInsts[op.M].Mask, 0, 2, "exRemoves") // irrelevant for Add
 	}
 	if op.P == PUnsafe {
-		op.Comps = g.biasRel(t, subset(t, free, 1, 4, "comps"), ^free)
+		op.Comps = g.biasRel(t, g.hotSubset(t, free, 1, 4, "comps"), ^free)
 		op.Rels = g.relsFor(t, op.Comps)
 		for i := range op.Rels {
 			if op.Rels[i].S == 0 {
@@ -596,7 +603,7 @@ func (g *Gen) genRemove(t *rapid.T, s int) *Op {
 		}
 	}
 	if op.P == PUnsafe {
-		op.Rem = subset(t, e.Mask, 1, 3, "rem")
+		op.Rem = g.hotSubset(t, e.Mask, 1, 3, "rem")
 		op.Mode = rapid.SampledFrom([]int{0, 0, 2}).Draw(t, "remVariant")
 	}
 	return op
@@ -622,7 +629,7 @@ func (g *Gen) genExchange(t *rapid.T, s int) *Op {
 		}
 	}
 	op.P = PUnsafe
-	op.Comps = subset(t, free, 0, 3, "add")
+	op.Comps = g.hotSubset(t, free, 0, 3, "add")
 	lo := 0
 	if len(op.Comps) == 0 {
 		lo = 1
@@ -742,9 +749,32 @@ func (g *Gen) genSetRel(t *rapid.T) *Op {
 // genFilter draws a filter specification.
 func (g *Gen) genFilter(t *rapid.T) *Op {
 	fs := &FilterSpec{}
+	if g.hot != 0 && rapid.IntRange(0, 2).Draw(t, "broadFilter") != 0 {
+		// a broad filter over the case's hot components: Filter0/Filter1 with 0-2 hot components, at most one excluded
+		fs.Inst = 0
+		var l []int
+		for i := range FilterInsts {
+			if FilterInsts[i].Arity == 1 && FilterInsts[i].Mask&^g.hot == 0 {
+				l = append(l, i)
+			}
+		}
+		if len(l) > 0 && rapid.Bool().Draw(t, "arity1") {
+			fs.Inst = rapid.SampledFrom(l).Draw(t, "filterInst")
+		}
+		fs.With = subset(t, g.hot&^FilterInsts[fs.Inst].Mask, 0, 1, "with")
+		if rapid.IntRange(0, 2).Draw(t, "exclude") == 0 {
+			fs.Without = subset(t, g.hot&^fs.Mask(), 1, 1, "without")
+		}
+		for _, c := range listOf(fs.Mask() & comps.RelMask) {
+			if rapid.IntRange(0, 3).Draw(t, "fixedRel") == 0 {
+				fs.Rels = append(fs.Rels, RelSpec{C: c, T: g.pickTarget(t), S: rapid.IntRange(0, 2).Draw(t, "relStyle")})
+			}
+		}
+		return &Op{K: "filterNew", FS: fs}
+	}
 	if rapid.IntRange(0, 5).Draw(t, "unsafeFilter") == 0 {
 		fs.Inst = -1
-		fs.UComps = subset(t, 0xffff, 0, 3, "ucomps")
+		fs.UComps = g.hotSubset(t, 0xffff, 0, 3, "ucomps")
 	} else {
 		// bias to low arities, which match more entities
 		ar := rapid.SampledFrom([]int{0, 0, 1, 1, 1, 2, 2, 2, 3, 3, 4, 5, 6, 7, 8}).Draw(t, "arity")
@@ -754,15 +784,16 @@ func (g *Gen) genFilter(t *rapid.T) *Op {
 				l = append(l, i)
 			}
 		}
+		l = g.preferHot(t, l, func(i int) uint16 { return FilterInsts[i].Mask }, "filter")
 		fs.Inst = rapid.SampledFrom(l).Draw(t, "filterInst")
-		fs.With = subset(t, ^FilterInsts[fs.Inst].Mask, 0, 2, "with")
+		fs.With = g.hotSubset(t, ^FilterInsts[fs.Inst].Mask, 0, 2, "with")
 	}
 	mask := fs.Mask()
 	switch rapid.IntRange(0, 5).Draw(t, "exclude") {
 	case 0:
 		fs.Exclusive = true
 	case 1, 2:
-		fs.Without = subset(t, ^mask, 1, 3, "without")
+		fs.Without = g.hotSubset(t, ^mask, 1, 3, "without")
 	}
 	if fs.Inst >= 0 {
 		for _, c := range listOf(mask & comps.RelMask) {
@@ -844,9 +875,23 @@ func (g *Gen) genBatch(t *rapid.T, k string) *Op {
 			l = append(l, i)
 		}
 	}
+	if rapid.IntRange(0, 4).Draw(t, "nonEmptyBatch") != 0 {
+		var ne []int
+		for _, i := range l {
+			if len(m.Select(m.Filters[i], nil)) > 0 {
+				ne = append(ne, i)
+			}
+		}
+		if len(ne) > 0 {
+			l = ne
+		}
+	}
 	fi := rapid.SampledFrom(l).Draw(t, "filter")
 	f := m.Filters[fi]
-	op := &Op{K: k, F: fi, QRels: g.qrels(t, f), Fn: rapid.Bool().Draw(t, "fn")}
+	op := &Op{K: k, F: fi, Fn: rapid.Bool().Draw(t, "fn")}
+	if rapid.IntRange(0, 2).Draw(t, "batchQRels") == 0 {
+		op.QRels = g.qrels(t, f)
+	}
 	sel := m.Select(f, op.QRels)
 	var union uint16
 	common := uint16(0xffff)
@@ -907,6 +952,33 @@ func (g *Gen) genBatch(t *rapid.T, k string) *Op {
 			op.K = "removeEntities"
 			return op
 		}
+		masks := exMask
+		if typed {
+			masks = mapMask
+		}
+		// prefer components the filter excludes (the destination then already holds entities) and relation components
+		if wo := maskOf(f.Without); wo != 0 && rapid.IntRange(0, 2).Draw(t, "addExcluded") != 0 {
+			var pl []int
+			for _, i := range il {
+				if masks(i)&^wo == 0 {
+					pl = append(pl, i)
+				}
+			}
+			if len(pl) > 0 {
+				il = pl
+			}
+		} else if g.P.RelBias > 0 && rapid.IntRange(0, 99).Draw(t, "addRelBias") < g.P.RelBias {
+			var pl []int
+			for _, i := range il {
+				if masks(i)&comps.RelMask != 0 {
+					pl = append(pl, i)
+				}
+			}
+			if len(pl) > 0 {
+				il = pl
+			}
+		}
+		il = g.preferHot(t, il, masks, "batchInst")
 		if typed {
 			op.P = PMap
 			op.M = pickByArity(t, il, func(i int) int { return min(mapArity(i), 4) }, "mapper")
@@ -1126,4 +1198,38 @@ func (g *Gen) biasRel(t *rapid.T, list []int, forbidden uint16) []int {
 		return list
 	}
 	return append(list, rapid.SampledFrom(cand).Draw(t, "biasRelComp"))
+}
+
+// hotSubset draws like subset but, three times out of four, only among the case's hot components.
+func (g *Gen) hotSubset(t *rapid.T, mask uint16, lo, hi int, label string) []int {
+	if g.hot != 0 && mask&g.hot != 0 && rapid.IntRange(0, 3).Draw(t, label+"Hot") != 0 {
+		if l := subset(t, mask&g.hot, lo, hi, label); len(l) >= lo {
+			return l
+		}
+	}
+	return subset(t, mask, lo, hi, label)
+}
+
+// preferHot narrows a list of instantiations to those whose components are all hot (half of the time, if any).
+func (g *Gen) preferHot(t *rapid.T, l []int, masks func(i int) uint16, label string) []int {
+	if g.hot == 0 || !rapid.Bool().Draw(t, label+"PreferHot") {
+		return l
+	}
+	var h []int
+	for _, i := range l {
+		if masks(i)&^g.hot == 0 {
+			h = append(h, i)
+		}
+	}
+	if len(h) > 0 {
+		return h
+	}
+	return l
+}
+
+// DrawHot draws the hot component set of a case: 4-7 components with at least one relation component.
+func (g *Gen) DrawHot(t *rapid.T) {
+	l := subset(t, 0xffff&^comps.RelMask, 3, 5, "hotComps")
+	r := subset(t, comps.RelMask, 1, 2, "hotRels")
+	g.hot = maskOf(l) | maskOf(r)
 }
